@@ -28,7 +28,7 @@ var pieces = []string{"\n", "\r\n", "\r", "\"", "'", "=", "|", "\\", " integrity
 var words = []string{"query", "failed", "user", "SELECT 1", "client_id", "ok", "x", "connection closed", "0", "-1"}
 
 var fieldNames = []string{"user", "client_id", "integrity", "chain", "msg", "time", "level", "a", "a b", "k=v", "unixTime", "product", "code", "severity", "vendor", "version",
-	"error", "zz", "Integrity", "chain=end", "é", "x|y", "q\"uote", "back\\slash", "timestamp", "fields.msg"}
+	"error", "zz", "Integrity", "chain=end", "é", "x|y", "q\"uote", "back\\slash", "timestamp", "fields.msg", "n<", "bad\xff", "bad\xfe", "", "\u2028", "Chain", "delimiter"}
 
 func advString(rd *core.Rand) string {
 	switch rd.Intn(10) {
@@ -92,7 +92,11 @@ func genHistory(rd *core.Rand, adversarial bool, maxLen int) []entrySpec {
 			if adversarial {
 				e.msg = advString(rd)
 				for k := rd.Intn(4); k > 0; k-- {
-					e.fields[core.Pick(rd, fieldNames)] = advValue(rd)
+					if rd.Chance(45) {
+						e.fields[core.Pick(rd, fieldNames)] = richValue(rd)
+					} else {
+						e.fields[core.Pick(rd, fieldNames)] = advValue(rd)
+					}
 				}
 			} else {
 				e.msg = core.Pick(rd, words)
@@ -156,12 +160,14 @@ func inputClass(format string, specs []entrySpec, items []recItem) string {
 
 func verifyOp(r *core.Run, format string, key, file []byte) string {
 	if format == "json" {
+		// entry level: the model receives the lines as parsed by the real JSONLogParser …
 		ls := fileLines(file)
 		specs := make([]string, len(ls))
 		for i, l := range ls {
 			specs[i] = specOfLine("json", l)
 		}
-		return r.Do(fmt.Sprintf("C20.verifyp %s %s %s", core.Hex(key), core.Hex(file), strings.Join(specs, " ")))
+		r.Do(fmt.Sprintf("C20.verifyp %s %s %s", core.Hex(key), core.Hex(file), strings.Join(specs, " ")))
+		// … and line level: the model decodes the lines itself (AuditLog/Json.lean)
 	}
 	return r.Do(fmt.Sprintf("C20.verify %s %s %s", format, core.Hex(key), core.Hex(file)))
 }
@@ -296,7 +302,7 @@ func oneHistory(r *core.Run, format string, key []byte, specs []entrySpec, adver
 	r.Begin("hist:"+format+":"+core.Hex(file), len(items) > 0, stream, "format:"+format, fmt.Sprintf("entries:%d", len(items)))
 	class := inputClass(format, specs, items)
 	// layer 2: the hooks applied to the recorded formatter outputs reproduce the pipeline's bytes
-	if format != "json" {
+	{
 		line := fmt.Sprintf("C20.produce %s %s %s", format, core.Hex(key), itemsArg(items))
 		out := r.Do(line)
 		if out != core.Hex(file) {
@@ -304,7 +310,7 @@ func oneHistory(r *core.Run, format string, key []byte, specs []entrySpec, adver
 		}
 	}
 	lines := fileLines(file)
-	if format != "json" {
+	{
 		for _, l := range lines {
 			r.Do(fmt.Sprintf("C20.parse %s %s", format, core.Hex(l)))
 		}
